@@ -1,4 +1,7 @@
 """C13 — capacity is enforced and cost accounting matches residency."""
-from props import cachelib
+from props import cachelib, cacheconc
 def run(ctx):
     cachelib.run(ctx, "C13", [("capacity", 6), ("register", 1), ("snapshot", 1)], 3600, 60000, stress=100)
+    # concurrent layer: critical-section model over all interleavings + baton-scheduled tie on the real Cache
+    cacheconc.obligations(ctx, "C13")
+    cacheconc.tie(ctx)
